@@ -16,9 +16,41 @@ CHECKS = {
         ref="5 (C15)"),
 }
 
+PM = "ParsleyMachine"
+PMNOTE = ("bounded grammar families (template families F1/F2/F3/NM/HID + catalogue) and input lengths <= 3-4 for the exhaustive part, random "
+          "grammars <= 3 nonterminals and inputs <= 6 for the recorded traces; runs cut by the step/result budget are counted, not judged; "
+          "TLC and the probes (pass-through wrappers using only exported API) are trusted")
+CHECKS.update({
+    "C01": dict(engine=PM,
+        text="TLC explores ParsleyMachine (explicit-stack model of memoisation, curtailment, Seq family, Any/Choice/Optional, errors) over bounded "
+             "grammar families x all inputs and checks the results of every top-level call and every context-free cache entry against the "
+             "denotational least fixpoint Derivation!Ends; every explored case is replayed on the real combinators (root + every memoised "
+             "nonterminal at every position), the real end positions are compared with the oracle and the recorded probe traces are "
+             "validated event by event against the machine; random admissible grammars go the other way.",
+        note=PMNOTE, technique="TLA+ explicit-stack machine + denotational oracle checked by TLC; TLC-generated cases replayed into the real combinators; probe traces of real runs validated by TLC (trace validation)", ref="5 (C01)"),
+    "C02": dict(engine=PM,
+        text="ReentryBound is an invariant of ParsleyMachine over families with direct, indirect and hidden left recursion (nullable prefixes), "
+             "termination is checked as a liveness property on a small configuration; on the real code the probes count body activations of "
+             "every memoised parser per position, stop a run that exceeds the bound, and TLC judges the bound on every recorded call event.",
+        note=PMNOTE, technique="TLC invariant + liveness on the TLA+ machine; trace validation of real runs with the re-entry bound judged on every call event", ref="5 (C02)"),
+    "C04": dict(engine=PM,
+        text="ParsleyMachine!ApiOutcome models parsley.Parse; TLC checks Sentence <=> Derivation derives the whole input over the families; "
+             "for every explored and random case the real Parse / Evaluate outcomes (node, error, span, panic) are recorded and judged by TLC.",
+        note=PMNOTE, technique="TLC model checking of the API outcome + TLC-judged recorded API observations of the real code", ref="5 (C04)"),
+    "C06": dict(engine=PM,
+        text="The machine carries the complete error algebra (Seq's highest error, Any/Choice drop rule and fallback, Name, Optional passing errors, "
+             "SetError, Parse's choice) and the set of failed expectations; TLC checks reported <= furthest failed attempt, = when all "
+             "alternatives are named, and that the expectation failed there; on the real code the probes record every failed terminal / End / "
+             "named parser of the root parse and TLC checks the reported text (incl. line:column) against them.",
+        note=PMNOTE, technique="TLC invariant on the TLA+ machine's error registers + TLC-judged error texts of real failing parses against probe-recorded attempts", ref="5 (C06)"),
+})
+
 NOT_YET = {}
 
 ENGINES = [
+    dict(name="ParsleyMachine", path="spec/ParsleyMachine.tla", serves_properties=["C01", "C02", "C04", "C06"],
+         kind_free_text="TLA+ explicit-stack machine of the parsing algorithm; Derivation.tla (denotational oracle), Grammar.tla (families), "
+                        "ParsleyMC (exhaustive exploration + export), ParsleyTrace (trace validation / judge)"),
     dict(name="IntData", path="spec/IntData.tla", serves_properties=["C15"],
          kind_free_text="TLA+ heap of immutable set/map values; IntDataMC (exhaustive + export), IntDataTrace (trace validation)"),
 ]
